@@ -740,3 +740,73 @@ def paths_deep(repo, fi: FunctionInfo, bindings: Optional[Dict[str, object]] = N
                     continue
         out.append(p)
     return out
+
+
+def truth_of(conds, atom_text: str) -> Optional[bool]:
+    """truth of an atomic test under path facts, with the two propositional
+    steps the evaluators do not take themselves:
+        not (a and b), a  |-  not b        (a or b), not a  |-  b"""
+    facts = {t: pol for t, pol in conds}
+    if atom_text in facts:
+        return facts[atom_text]
+    for _ in range(3):
+        for t, pol in list(facts.items()):
+            try:
+                e = ast.parse(t, mode="eval").body
+            except SyntaxError:
+                continue
+            if isinstance(e, ast.BoolOp):
+                parts = []
+                for v in e.values:
+                    neg = False
+                    while isinstance(v, ast.UnaryOp) and isinstance(v.op, ast.Not):
+                        v, neg = v.operand, not neg
+                    c = canon_cond(v, True)
+                    parts.append((c[0], c[1] != neg))  # text, polarity required for the part to be true
+                known = [(facts.get(pt), want_) for pt, want_ in parts]
+                if isinstance(e.op, ast.And) and pol is False:
+                    unk = [k for k, (val, w) in enumerate(known) if val is None]
+                    if len(unk) == 1 and all(val == w for k, (val, w) in enumerate(known) if k != unk[0]):
+                        pt, w = parts[unk[0]]
+                        facts[pt] = not w
+                if isinstance(e.op, ast.Or) and pol is True:
+                    unk = [k for k, (val, w) in enumerate(known) if val is None]
+                    if len(unk) == 1 and all(val is not None and val != w for k, (val, w) in enumerate(known) if k != unk[0]):
+                        pt, w = parts[unk[0]]
+                        facts[pt] = w
+        if atom_text in facts:
+            return facts[atom_text]
+    return facts.get(atom_text)
+
+
+def consistent(conds) -> bool:
+    """False when the path facts contradict each other (a path produced by
+    splitting independent tests that the code's earlier tests exclude)"""
+    facts = {}
+    for t, pol in conds:
+        if t in facts and facts[t] != pol:
+            return False
+        facts[t] = pol
+    for t, pol in conds:
+        try:
+            e = ast.parse(t, mode="eval").body
+        except SyntaxError:
+            continue
+        if isinstance(e, ast.BoolOp):
+            vals = []
+            for v in e.values:
+                neg = False
+                while isinstance(v, ast.UnaryOp) and isinstance(v.op, ast.Not):
+                    v, neg = v.operand, not neg
+                c = canon_cond(v, True)
+                val = truth_of(conds, c[0])
+                vals.append(None if val is None else (val == (c[1] != neg)))
+            if isinstance(e.op, ast.And) and pol is False and all(v is True for v in vals):
+                return False
+            if isinstance(e.op, ast.And) and pol is True and any(v is False for v in vals):
+                return False
+            if isinstance(e.op, ast.Or) and pol is True and all(v is False for v in vals):
+                return False
+            if isinstance(e.op, ast.Or) and pol is False and any(v is True for v in vals):
+                return False
+    return True
